@@ -1,6 +1,7 @@
 package vc
 
 import (
+	"go/ast"
 	"fmt"
 	"go/types"
 	"strings"
@@ -51,6 +52,38 @@ func (r *FnRun) call(st *State, b *ssa.BasicBlock, idx int, x *ssa.Call) (Val, b
 			for k, v := range r.lets {
 				if _, have := env.vars[k]; !have {
 					env.vars[k] = v
+				}
+			}
+			// source-level locals of the caller visible at the call (nearest definition that
+			// dominates the call; parameters and the callee's parameter names take precedence)
+			for b := x.Block(); b != nil; b = b.Idom() {
+				seenCall := b != x.Block()
+				for k := len(b.Instrs) - 1; k >= 0; k-- {
+					ins := b.Instrs[k]
+					if !seenCall {
+						if ins == ssa.Instruction(x) {
+							seenCall = true
+						}
+						continue
+					}
+					dr, ok := ins.(*ssa.DebugRef)
+					if !ok || dr.IsAddr {
+						continue
+					}
+					id, ok := dr.Expr.(*ast.Ident)
+					if !ok {
+						continue
+					}
+					if _, have := env.vars[id.Name]; have {
+						continue
+					}
+					if v, ok := st.regs[dr.X]; ok {
+						env.vars[id.Name] = v
+						env.vtypes[id.Name] = dr.X.Type()
+					} else if c, ok := dr.X.(*ssa.Const); ok {
+						env.vars[id.Name] = r.constVal(st, c)
+						env.vtypes[id.Name] = c.Type()
+					}
 				}
 			}
 			r.addGoal(st, fmt.Sprintf("at_call.%s#%d/%s", qn, r.siteIdx[x], clauseLabel(ac.C, i)), r.posOf(x), env.evalBool(ac.C.E), ac.C.Props)
